@@ -1660,6 +1660,7 @@ class RTCSctpTransport(AsyncIOEventEmitter):
             else:
                 break
             self._advanced_peer_ack_tsn = chunk.tsn
+            self._flight_size_decrease(chunk)
             done += 1
             if not (chunk.flags & SCTP_DATA_UNORDERED):
                 streams[chunk.stream_id] = chunk.stream_seq
